@@ -577,6 +577,35 @@ Proof.
   - split; [split; [exact Hok|apply grow_refl]|now apply HQ].
 Qed.
 
+(* the same over the traversal state (stack, discovered, finished) *)
+Theorem pass3_invariant_st (Q : list (nat * list nat) -> lstate -> list nat -> list nat -> list nat -> Prop) s root s' :
+  tables_ok P st s -> pass3 rc ord s root = Some s' ->
+  (forall m, get_literal_diffs (ls_g s) root = Some m -> Q m s [root] [] []) ->
+  (forall m s1 nx rest disc fin, tables_ok P st s1 -> grow (ls_g s) (ls_g s1) -> Q m s1 (nx :: rest) disc fin ->
+     mem nx disc = false ->
+     Q m s1 (push_undiscovered (nx :: disc) (nx :: rest) (sg_out (ls_g s1) nx)) (nx :: disc) fin) ->
+  (forall m s1 nx rest disc fin, tables_ok P st s1 -> grow (ls_g s) (ls_g s1) -> Q m s1 (nx :: rest) disc fin ->
+     mem nx disc = true -> mem nx fin = true -> Q m s1 rest disc fin) ->
+  (forall m s1 s2 nx rest disc fin, diffs_ok FOK (ls_g s) m -> tables_ok P st s1 -> grow (ls_g s) (ls_g s1) ->
+     Q m s1 (nx :: rest) disc fin -> mem nx disc = true -> mem nx fin = false ->
+     p3step m s1 s2 nx -> Q m s2 rest disc (nx :: fin)) ->
+  exists m disc' fin', get_literal_diffs (ls_g s) root = Some m /\ Q m s' [] disc' fin'.
+Proof.
+  intros Hok H HQ Hdisc Hpop Hstep. unfold pass3 in H.
+  destruct (get_literal_diffs (ls_g s) root) as [m|] eqn:Em; [|discriminate].
+  pose proof (get_literal_diffs_ok FOK _ _ _ (fun z l Hz => P_abs l (co_pos _ _ _ (proj1 Hok) z l Hz)) Em) as Hm.
+  apply (dfs_fold_invariant_st _ _
+           (fun s1 stack disc fin => (tables_ok P st s1 /\ grow (ls_g s) (ls_g s1)) /\ Q m s1 stack disc fin)) in H.
+  - destruct H as [disc' [fin' [_ HQ']]]. now exists m, disc', fin'.
+  - intros s1 nx rest disc fin [[Hok1 Hg1] HQ1] Ed. split; [now split|]. now apply Hdisc.
+  - intros s1 nx rest disc fin [[Hok1 Hg1] HQ1] Ed Ef. split; [now split|]. now apply (Hpop m s1 nx).
+  - intros s1 nx rest disc fin s2 [[Hok1 Hg1] HQ1] Ed Ef Hb.
+    pose proof (pass3_body_step (ls_g s) m s1 nx s2 Hm Hok1 Hg1 Hb) as Hst.
+    destruct (p3step_ok m s1 s2 nx Hok1 Hst) as [Hok2 Hg2].
+    split; [split; [exact Hok2|exact (grow_trans _ _ _ Hg1 Hg2)]|]. exact (Hstep m s1 s2 nx rest disc fin Hm Hok1 Hg1 HQ1 Ed Ef Hst).
+  - split; [split; [exact Hok|apply grow_refl]|now apply HQ].
+Qed.
+
 Theorem pass3_grow s root s' : tables_ok P st s -> pass3 rc ord s root = Some s' ->
   tables_ok P st s' /\ grow (ls_g s) (ls_g s').
 Proof.
